@@ -107,29 +107,35 @@ FieldConvD(f, conv) == IF "nonlocal" \in Deviations /\ f.dconv = <<>> THEN conv 
 FieldConvS(f, conv) == IF "nonlocal" \in Deviations /\ f.sconv = <<>> THEN conv ELSE f.sconv
 
 \* the plain (conversion-free) type deserialize(T, ., conversion = conv) accepts; TUnsup if none
-RECURSIVE PlainD(_, _, _)
-PlainSeqD(E, ts, conv) == [i \in DOMAIN ts |-> PlainD(E, ts[i], conv)]
+\* `seen` holds the (class, conversion) pairs being resolved: RecursiveConversionsVisitor keys its
+\* placeholders the same way; a pair met again is a back reference [k |-> "rec"]
+RECURSIVE PlainDS(_, _, _, _)
+PlainSeqDS(E, ts, conv, seen) == [i \in DOMAIN ts |-> PlainDS(E, ts[i], conv, seen)]
 UnionOf(ps) == LET ok == SelectSeq(ps, LAMBDA p : p.k # "unsup") IN
                IF ok = <<>> THEN TUnsup ELSE IF Len(ok) = 1 THEN ok[1] ELSE TUni(ok)
-StructPlainD(E, T, conv) ==
+StructPlainDS(E, T, conv, seen) ==
   CASE T.k \in {"int", "str", "none"} -> T
-    [] T.k = "list"  -> LET p == PlainD(E, T.e, conv) IN IF p.k = "unsup" THEN TUnsup ELSE TList(p)
-    [] T.k = "dict"  -> LET p == PlainD(E, T.e, conv) IN IF p.k = "unsup" THEN TUnsup ELSE TDict(p)
-    [] T.k = "tuple" -> LET ps == PlainSeqD(E, T.es, conv) IN
+    [] T.k = "list"  -> LET p == PlainDS(E, T.e, conv, seen) IN IF p.k = "unsup" THEN TUnsup ELSE TList(p)
+    [] T.k = "dict"  -> LET p == PlainDS(E, T.e, conv, seen) IN IF p.k = "unsup" THEN TUnsup ELSE TDict(p)
+    [] T.k = "tuple" -> LET ps == PlainSeqDS(E, T.es, conv, seen) IN
                         IF \E i \in DOMAIN ps : ps[i].k = "unsup" THEN TUnsup ELSE TTup(ps)
-    [] T.k = "union" -> UnionOf(PlainSeqD(E, T.alts, conv))
+    [] T.k = "union" -> UnionOf(PlainSeqDS(E, T.alts, conv, seen))
     [] T.k = "cls"   -> IF E.ct[T.n].kind = "opq" THEN TUnsup
                         ELSE LET fs == E.ct[T.n].fields
-                                 ps == [i \in DOMAIN fs |-> PlainD(E, fs[i].t, FieldConvD(fs[i], conv))] IN
+                                 ps == [i \in DOMAIN fs |-> PlainDS(E, fs[i].t, FieldConvD(fs[i], conv), seen)] IN
                              IF \E i \in DOMAIN ps : ps[i].k = "unsup" THEN TUnsup
                              ELSE [k |-> "obj", n |-> T.n, fields |-> [i \in DOMAIN fs |-> <<fs[i].name, ps[i]>>]]
-PlainD(E, T, conv) ==
-  IF ~Convertible(T) THEN StructPlainD(E, T, conv)
-  ELSE LET s == StepD(E, T, conv) IN
-       IF s.convs = <<>> THEN StructPlainD(E, T, s.next)
+PlainDS(E, T, conv, seen) ==
+  IF ~Convertible(T) THEN StructPlainDS(E, T, conv, seen)
+  ELSE IF T.k = "cls" /\ <<T, conv>> \in seen THEN [k |-> "rec", n |-> T.n]
+  ELSE LET s  == StepD(E, T, conv)
+           s2 == IF T.k = "cls" THEN seen \cup {<<T, conv>>} ELSE seen IN
+       IF s.convs = <<>> THEN StructPlainDS(E, T, s.next, s2)
        ELSE \* _visit_conversion visits EVERY source: one unsupported source makes the type unsupported
-            LET ps == [i \in DOMAIN s.convs |-> PlainD(E, s.convs[i].src, SubConv(s.convs[i], s.next))] IN
+            LET ps == [i \in DOMAIN s.convs |-> PlainDS(E, s.convs[i].src, SubConv(s.convs[i], s.next), s2)] IN
             IF \E i \in DOMAIN ps : ps[i].k = "unsup" THEN TUnsup ELSE UnionOf(ps)
+PlainD(E, T, conv)       == PlainDS(E, T, conv, {})
+StructPlainD(E, T, conv) == StructPlainDS(E, T, conv, {})
 SupD(E, T, conv) == PlainD(E, T, conv).k # "unsup"
 
 \* outcomes: [kind |-> "ok", v] | [kind |-> "bad"] (ValidationError) | [kind |-> "raise"] (ValueError escapes)
@@ -222,24 +228,28 @@ StepS(E, T, conv) ==
       next == IF ~h.dyn /\ (IsCollection(T) \/ ("nonlocal" \in Deviations /\ T.k = "cls")) THEN conv ELSE <<>>
   IN [c |-> c, next |-> next, dyn |-> h.dyn]
 
-RECURSIVE PlainS(_, _, _)
-StructPlainS(E, T, conv) ==
+RECURSIVE PlainSS(_, _, _, _)
+StructPlainSS(E, T, conv, seen) ==
   CASE T.k \in {"int", "str", "none"} -> T
-    [] T.k = "list"  -> LET p == PlainS(E, T.e, conv) IN IF p.k = "unsup" THEN TUnsup ELSE TList(p)
-    [] T.k = "dict"  -> LET p == PlainS(E, T.e, conv) IN IF p.k = "unsup" THEN TUnsup ELSE TDict(p)
-    [] T.k = "tuple" -> LET ps == [i \in DOMAIN T.es |-> PlainS(E, T.es[i], conv)] IN
+    [] T.k = "list"  -> LET p == PlainSS(E, T.e, conv, seen) IN IF p.k = "unsup" THEN TUnsup ELSE TList(p)
+    [] T.k = "dict"  -> LET p == PlainSS(E, T.e, conv, seen) IN IF p.k = "unsup" THEN TUnsup ELSE TDict(p)
+    [] T.k = "tuple" -> LET ps == [i \in DOMAIN T.es |-> PlainSS(E, T.es[i], conv, seen)] IN
                         IF \E i \in DOMAIN ps : ps[i].k = "unsup" THEN TUnsup ELSE TTup(ps)
-    [] T.k = "union" -> UnionOf([i \in DOMAIN T.alts |-> PlainS(E, T.alts[i], conv)])
+    [] T.k = "union" -> UnionOf([i \in DOMAIN T.alts |-> PlainSS(E, T.alts[i], conv, seen)])
     [] T.k = "cls"   -> IF E.ct[T.n].kind = "opq" THEN TUnsup
                         ELSE LET fs == E.ct[T.n].fields
-                                 ps == [i \in DOMAIN fs |-> PlainS(E, fs[i].t, FieldConvS(fs[i], conv))] IN
+                                 ps == [i \in DOMAIN fs |-> PlainSS(E, fs[i].t, FieldConvS(fs[i], conv), seen)] IN
                              IF \E i \in DOMAIN ps : ps[i].k = "unsup" THEN TUnsup
                              ELSE [k |-> "obj", n |-> T.n, fields |-> [i \in DOMAIN fs |-> <<fs[i].name, ps[i]>>]]
-PlainS(E, T, conv) ==
-  IF ~Convertible(T) THEN StructPlainS(E, T, conv)
-  ELSE LET s == StepS(E, T, conv) IN
-       IF s.c = <<>> THEN StructPlainS(E, T, s.next)
-       ELSE PlainS(E, s.c[1].tgt, SubConv(s.c[1], s.next))
+PlainSS(E, T, conv, seen) ==
+  IF ~Convertible(T) THEN StructPlainSS(E, T, conv, seen)
+  ELSE IF T.k = "cls" /\ <<T, conv>> \in seen THEN [k |-> "rec", n |-> T.n]
+  ELSE LET s  == StepS(E, T, conv)
+           s2 == IF T.k = "cls" THEN seen \cup {<<T, conv>>} ELSE seen IN
+       IF s.c = <<>> THEN StructPlainSS(E, T, s.next, s2)
+       ELSE PlainSS(E, s.c[1].tgt, SubConv(s.c[1], s.next), s2)
+PlainS(E, T, conv)       == PlainSS(E, T, conv, {})
+StructPlainS(E, T, conv) == StructPlainSS(E, T, conv, {})
 SupS(E, T, conv) == PlainS(E, T, conv).k # "unsup"
 
 \* the serializers: what they return for an opaque instance with payload p (always an int datum)
